@@ -148,6 +148,28 @@ pub fn sequential(c: &RealCfg) -> (Vec<(usize, u64)>, Option<String>) {
     (recs, err)
 }
 
+/// largest number of records in one record set when the document is read with plain read_record_set()
+/// (the reader thread of the parallel functions does exactly that, whatever the schedule)
+pub fn max_batch(c: &RealCfg) -> usize {
+    let doc = document(c);
+    let src = Chunked { data: doc, pos: 0, chunk: c.chunk as usize };
+    let mut m = 0;
+    if c.fastq {
+        let mut r = fastq::Reader::with_capacity(src, c.cap);
+        let mut set = fastq::RecordSet::default();
+        while let Some(Ok(())) = r.read_record_set(&mut set) {
+            m = m.max(set.len());
+        }
+    } else {
+        let mut r = fasta::Reader::with_capacity(src, c.cap);
+        let mut set = fasta::RecordSet::default();
+        while let Some(Ok(())) = r.read_record_set(&mut set) {
+            m = m.max(set.len());
+        }
+    }
+    m
+}
+
 #[derive(Debug, Clone, PartialEq, Eq)]
 pub enum RealE {
     Parse(String),
@@ -508,9 +530,20 @@ pub fn check_real(c: &RealCfg, o: &RealObs) -> CheckResult {
             (None, false) => {}
         }
     }
-    // number of data sets
+    // number of data sets, and of per-record output values (each data set recycles its vector of outputs)
     if c.api == 1 {
         ensure!(o.rset_inits <= c.queue_len + 1, format!("real/{}/too-many-data-sets", f), "{} record sets were created, queue_len + 1 = {}", o.rset_inits, c.queue_len + 1);
+        let m = max_batch(c);
+        ensure!(
+            o.data_inits <= (c.queue_len + 1) * m + 1,
+            format!("real/{}/per-record-outputs-not-recycled", f),
+            "record_data_init was called {} times for {} records; with {} data sets and at most {} records per set it is needed at most {} times",
+            o.data_inits,
+            n,
+            c.queue_len + 1,
+            m,
+            (c.queue_len + 1) * m
+        );
     }
     match result {
         Ok(true) => {
